@@ -52,11 +52,13 @@ Record ivalue := mkIV { iv_type : string; iv_flat : option vparams; iv_vamana : 
                         iv_text : option string; iv_string : bool; iv_sarr : bool }.
 Definition ischema := list (string * ivalue).
 
-Definition validate_bq (b : bqparams) : bool :=
-  (if enf_bq_trigger_only_without_threshold
+(* [only_without_threshold]: the pinned tree tested the triggerThreshold range only when no threshold was given *)
+Definition validate_bq_gen (only_without_threshold : bool) (b : bqparams) : bool :=
+  (if only_without_threshold
    then bq_has_threshold b || in_range enf_bq_trigger_min enf_bq_trigger_max (bq_trigger b)
    else in_range enf_bq_trigger_min enf_bq_trigger_max (bq_trigger b))
   && mem (bq_metric b) enf_bq_metrics.
+Definition validate_bq (b : bqparams) : bool := validate_bq_gen enf_bq_trigger_only_without_threshold b.
 
 Definition validate_pq (p : pqparams) : bool :=
   in_range enf_pq_centroids_min enf_pq_centroids_max (pq_centroids p)
@@ -75,8 +77,38 @@ Definition validate_oquant (o : option quantizer) : bool :=
 (* Go: p.Alpha < lo || p.Alpha > hi on float32; every comparison with NaN is false *)
 Definition f32_ltb (a b : N) : bool :=
   negb (f32_is_nan a) && negb (f32_is_nan b) && Qltb (f32_to_Q a) (f32_to_Q b).
-Definition alpha_ok (a : N) : bool :=
-  negb (f32_ltb a enf_alpha_min_f32) && negb (f32_ltb enf_alpha_max_f32 a).
+(* [rejects_nan]: !(alpha >= lo && alpha <= hi) refuses NaN; the pinned alpha < lo || alpha > hi lets it pass *)
+Definition alpha_ok_gen (rejects_nan : bool) (a : N) : bool :=
+  (negb rejects_nan || negb (f32_is_nan a))
+  && negb (f32_ltb a enf_alpha_min_f32) && negb (f32_ltb enf_alpha_max_f32 a).
+Definition alpha_ok (a : N) : bool := alpha_ok_gen enf_alpha_rejects_nan a.
+
+(* vectorstore.New / newProductQuantizer: a product quantizer can be built for an index iff the metric is
+   hamming / jaccard (the binary store is used instead), or the metric is euclidean / cosine / dot and
+   numSubVectors divides the vector size.  Anything else makes every later use of the index fail. *)
+Definition pq_unbuildable (p : vparams) : bool :=
+  match vp_quant p with
+  | Some q =>
+      seq (qz_type q) "product" &&
+      negb (seq (vp_metric p) "hamming" || seq (vp_metric p) "jaccard") &&
+      match qz_product q with
+      | Some pq => negb ((vp_size p) mod (pq_subvectors pq) =? 0)
+                   || negb (seq (vp_metric p) "euclidean" || seq (vp_metric p) "cosine" || seq (vp_metric p) "dot")
+      | None => false end
+  | None => false
+  end.
+
+(* Quantizer.ValidateFor(vectorSize, distanceMetric), after q.Validate() *)
+Definition quantizer_fits (p : vparams) : bool :=
+  match vp_quant p with
+  | Some q =>
+      if seq (qz_type q) "product" && negb (mem (vp_metric p) enf_pq_exempt_metrics) then
+        mem (vp_metric p) enf_pq_metrics
+        && gate enf_pq_subvectors_divide_size
+             (match qz_product q with Some pq => (vp_size p) mod (pq_subvectors pq) =? 0 | None => false end)
+      else true
+  | None => true
+  end.
 
 Definition haversine_ok (hsize : Z) (p : vparams) : bool :=
   negb (seq (vp_metric p) "haversine") || (vp_size p =? hsize).
@@ -85,7 +117,8 @@ Definition validate_flat (p : vparams) : bool :=
   in_range enf_flat_vector_size_min enf_flat_vector_size_max (vp_size p)
   && mem (vp_metric p) enf_flat_metrics
   && haversine_ok enf_flat_haversine_size p
-  && gate enf_flat_validates_quantizer (validate_oquant (vp_quant p)).
+  && gate enf_flat_validates_quantizer (validate_oquant (vp_quant p))
+  && gate enf_flat_quantizer_for_index (quantizer_fits p).
 
 Definition validate_vamana (p : vparams) : bool :=
   in_range enf_vector_size_min enf_vector_size_max (vp_size p)
@@ -94,7 +127,8 @@ Definition validate_vamana (p : vparams) : bool :=
   && in_range enf_index_search_size_min enf_index_search_size_max (vp_ssize p)
   && in_range enf_degree_min enf_degree_max (vp_degree p)
   && alpha_ok (vp_alpha p)
-  && gate enf_vamana_validates_quantizer (validate_oquant (vp_quant p)).
+  && gate enf_vamana_validates_quantizer (validate_oquant (vp_quant p))
+  && gate enf_vamana_quantizer_for_index (quantizer_fits p).
 
 Definition validate_ivalue (v : ivalue) : bool :=
   mem (iv_type v) enf_index_types &&
@@ -471,15 +505,20 @@ Definition v1_dim (s : ischema) : option Z :=
 Definition handler_create1 (r : create1) : hres :=
   guarded hdl_v1_create_validates_first (validate_create1 r) OpCreate.
 
-(* ListCollections: one dereference per collection of the user *)
-Definition handler_list1 (schemas : list ischema) : hres :=
-  if hdl_v1_assumes_vector_vamana && existsb (fun s => match v1_dim s with None => true | Some _ => false end) schemas
+(* [assumes]: the pinned handlers dereference the parameters without a nil test (panic); the repaired
+   ones answer 400 before any cluster call, and the listing skips such collections *)
+Definition missing_index (assumes : bool) : hres := if assumes then Panic else Reject.
+
+Definition handler_list1_gen (assumes : bool) (schemas : list ischema) : hres :=
+  if assumes && existsb (fun s => match v1_dim s with None => true | Some _ => false end) schemas
   then Panic else Call OpList.
-Definition handler_get1 (s : ischema) : hres :=
+Definition handler_get1_gen (assumes : bool) (s : ischema) : hres :=
   match v1_dim s with
-  | None => if hdl_v1_assumes_vector_vamana then Panic else Call OpGet
+  | None => missing_index assumes
   | Some _ => Call OpGet
   end.
+Definition handler_list1 := handler_list1_gen hdl_v1_assumes_vector_vamana.
+Definition handler_get1 := handler_get1_gen hdl_v1_assumes_vector_vamana.
 
 Record points1 := mkPts1 { ps1_points : list point1; ps1_maxsize : Z }.
 Definition validate_points1 (lo hi vlo vhi : Z) (create_new : bool) (r : points1) : bool :=
@@ -488,13 +527,14 @@ Definition validate_points1 (lo hi vlo vhi : Z) (create_new : bool) (r : points1
 Definition points1_fit (d : Z) (r : points1) : bool :=
   forallb (fun p => (p1_len p =? d) && (p1_size p <=? ps1_maxsize r)) (ps1_points r).
 
-Definition handler_points1 (flag valid : bool) (s : ischema) (r : points1) (o : op) : hres :=
+Definition handler_points1_gen (assumes flag valid : bool) (s : ischema) (r : points1) (o : op) : hres :=
   if negb flag then Call o
   else if negb valid then Reject
   else match v1_dim s with
-       | None => if hdl_v1_assumes_vector_vamana then Panic else Call o   (* the loop runs at least once *)
+       | None => missing_index assumes
        | Some d => if points1_fit d r then Call o else Reject
        end.
+Definition handler_points1 := handler_points1_gen hdl_v1_assumes_vector_vamana.
 Definition validate_insert1 (r : points1) : bool :=
   validate_points1 enf_v1_points_insert_min enf_v1_points_insert_max enf_v1_insert_vector_min enf_v1_insert_vector_max true r.
 Definition validate_update1 (r : points1) : bool :=
@@ -503,13 +543,14 @@ Definition handler_insert1 (s : ischema) (r : points1) : hres :=
   handler_points1 hdl_v1_insert_validates_first (validate_insert1 r) s r (OpInsert (Z.of_nat (List.length (ps1_points r)))).
 Definition handler_update1 (s : ischema) (r : points1) : hres :=
   handler_points1 hdl_v1_update_validates_first (validate_update1 r) s r (OpUpdate (Z.of_nat (List.length (ps1_points r)))).
-Definition handler_search1 (s : ischema) (r : search1) : hres :=
+Definition handler_search1_gen (assumes : bool) (s : ischema) (r : search1) : hres :=
   if negb hdl_v1_search_validates_first then Call OpSearch
   else if negb (validate_search1 r) then Reject
   else match v1_dim s with
-       | None => if hdl_v1_assumes_vector_vamana then Panic else Call OpSearch
+       | None => missing_index assumes
        | Some d => if s1_len r =? d then Call OpSearch else Reject
        end.
+Definition handler_search1 := handler_search1_gen hdl_v1_assumes_vector_vamana.
 
 (* ------------------------------------------------------------------ *)
 (* DOCUMENTED limits (the binding tags): the reference the property    *)
@@ -611,18 +652,10 @@ Definition sub_range (elo ehi dlo dhi : Z) : bool := (dlo <=? elo) && (ehi <=? d
 Definition sub_list (e d : list string) : bool := forallb (fun x => mem x d) e.
 
 (* ------------------------------------------------------------------ *)
-(* The three places where a documented limit is NOT enforced by Validate():
-   requests that avoid them ("gap-free") satisfy every documented bound once accepted *)
-Definition nogap_quant (o : option quantizer) : bool :=
-  match o with
-  | Some q => match qz_binary q with Some b => negb (bq_has_threshold b) | None => true end
-  | None => true
-  end.
-Definition nogap_ivalue (v : ivalue) : bool :=
-  oall (fun p => nogap_quant (vp_quant p)) (iv_flat v)
-  && oall (fun p => negb (f32_is_nan (vp_alpha p)) && nogap_quant (vp_quant p)) (iv_vamana v).
-Definition nogap_create2 (r : create2) : bool :=
-  c2_schema_present r && forallb (fun kv => nogap_ivalue (snd kv)) (c2_schema r).
+(* The one place left where a documented limit is NOT enforced by Validate(): indexSchema is tagged
+   required but a request without it is accepted.  (The pinned tree had two more: alpha = NaN and the
+   binary-quantizer triggerThreshold when a threshold is given; see the _v0 theorems.) *)
+Definition nogap_create2 (r : create2) : bool := c2_schema_present r.
 
 (* ------------------------------------------------------------------ *)
 (* Vocabulary of the theorems and the witnesses of the refuted statements *)
